@@ -414,9 +414,25 @@ def run_exact():
     return {}
 
 
+def spec_scale(method, n, order):
+    """independent model of the default scale per (method, n, order) (transcribed once from the pinned source; the property
+    makes the table part of the documented defaults)"""
+    high = n > 1 or order >= 4
+    half = max(order // 2 - 1, 0)                       # orders 1, 2, 3 -> 0;  4, 5 -> 1;  6, 7 -> 2; ...
+    q, r = divmod(n, 4)
+    c = [q * (10 + (1.5 if n > 10 else 0)), 3.65 + q * (5 + 1.5 ** q), 3.65 + q * (5 + 1.7 ** q), 7.30 + q * (5 + 2.1 ** q)][r] if high else 0
+    base = {'multicomplex': 1.06, 'complex': 1.06 + c}.get(method, 2.5)
+    per_n = {'multicomplex': 0.0, 'complex': 0.0}.get(method, 1.3)
+    per_order = {'central': 3, 'forward': 2, 'backward': 2}.get(method, 0)
+    return base + (n - 1) * per_n + half * per_order
+
+
 def run_scale(tier):
     sg = mods()['sg']
     rng = range(1, 11)
+    badt = [(m_, n_, o_, sg.default_scale(m_, n_, o_), spec_scale(m_, n_, o_)) for m_ in METHODS + ['central2'] for n_ in range(1, 13) for o_ in range(1, 11)
+            if abs(sg.default_scale(m_, n_, o_) - spec_scale(m_, n_, o_)) > 1e-12]
+    solve.fact('default_scale==documented-table[6 methods x n 1..12 x order 1..10]', not badt, note=str(badt[:3]))
     for method in METHODS:
         ok = True
         bad = None
